@@ -59,11 +59,54 @@ def assign_to(stmt, target):
     return isinstance(stmt, ast.Assign) and len(stmt.targets) == 1 and u(stmt.targets[0]) == target
 
 
-def flag_last_deepcopy(fn, where, obj):
-    """the statement before the final `return <obj>` is `<obj>.gates = deepcopy(<obj>.gates)`"""
+def returned_name(fn, where):
+    """the local name the function returns in its last statement (whatever it is called)"""
     st = _stmts(fn)
-    if not st or not isinstance(st[-1], ast.Return) or st[-1].value is None or u(st[-1].value) != obj:
-        raise Broken("translator:" + where, "does not end with `return %s`" % obj)
+    if not st or not isinstance(st[-1], ast.Return) or not isinstance(st[-1].value, ast.Name):
+        raise Broken("translator:" + where, "does not end with `return <local name>`")
+    return st[-1].value.id
+
+
+def params(fn):
+    """positional parameter names without self / cls"""
+    names = [a.arg for a in fn.args.args]
+    return names[1:] if names and names[0] in ("self", "cls") else names
+
+
+def copy_src(expr):
+    """if expr is a recognised copy of some expression X, the text of X (else None)"""
+    if isinstance(expr, ast.Call):
+        f = u(expr.func)
+        if f in ("deepcopy", "copy.deepcopy", "copy", "copy.copy", "list", "dict", "tuple") and len(expr.args) == 1 and not expr.keywords:
+            return u(expr.args[0])
+        if isinstance(expr.func, ast.Attribute) and expr.func.attr == "copy" and not expr.args:
+            return u(expr.func.value)
+    if isinstance(expr, ast.Subscript) and isinstance(expr.slice, ast.Slice) and expr.slice.lower is None and expr.slice.upper is None:
+        return u(expr.value)
+    if isinstance(expr, ast.ListComp) and len(expr.generators) == 1 and isinstance(expr.generators[0].target, ast.Name):
+        v = expr.generators[0].target.id
+        if u(expr.elt) in (v, "int(%s)" % v):
+            return u(expr.generators[0].iter)
+    return None
+
+
+def is_deep(expr):
+    return isinstance(expr, ast.Call) and u(expr.func) in ("deepcopy", "copy.deepcopy")
+
+
+def loop_var_over(fn, iter_texts, where):
+    """name of the loop variable of the (first) `for <name> in <one of iter_texts>` of the function"""
+    for n in ast.walk(fn):
+        if isinstance(n, ast.For) and u(n.iter) in iter_texts and isinstance(n.target, ast.Name):
+            return n.target.id
+    raise Broken("translator:" + where, "no loop over " + " / ".join(iter_texts))
+
+
+def flag_last_deepcopy(fn, where, obj=None):
+    """the statement before the final `return <obj>` is `<obj>.gates = deepcopy(<obj>.gates)`
+    (<obj> = the returned local name)"""
+    obj = obj or returned_name(fn, where)
+    st = _stmts(fn)
     prev = st[-2] if len(st) >= 2 else None
     if prev is not None and assign_to(prev, obj + ".gates"):
         if is_copy_of(prev.value, obj + ".gates") and "deepcopy" in u(prev.value):
@@ -105,11 +148,12 @@ def translate():
     rel = "circuit/circuit.py"
     t = _parse(rel)
     fn = _find(t, rel, "QubitCircuit", "resolve_gates")
-    F["f_resolve_final"] = flag_last_deepcopy(fn, rel + ":resolve_gates", "qc_temp")
-    _w("f_resolve_final", rel, _last_assign(fn, "qc_temp.gates"))
+    F["f_resolve_final"] = flag_last_deepcopy(fn, rel + ":resolve_gates")
+    _w("f_resolve_final", rel, _last_assign(fn, returned_name(fn, rel + ":resolve_gates") + ".gates"))
     fn = _find(t, rel, "QubitCircuit", "adjacent_gates")
-    F["f_adjacent_final"] = flag_last_deepcopy(fn, rel + ":adjacent_gates", "temp")
-    _w("f_adjacent_final", rel, _last_assign(fn, "temp.gates"))
+    F["f_adjacent_final"] = flag_last_deepcopy(fn, rel + ":adjacent_gates")
+    _w("f_adjacent_final", rel, _last_assign(fn, returned_name(fn, rel + ":adjacent_gates") + ".gates"))
+    gv = loop_var_over(fn, ("self.gates",), rel + ":adjacent_gates")
     fn_adj = fn
     lit = True
     gate_calls = calls_in(fn, "Gate")
@@ -120,38 +164,46 @@ def translate():
         for a in args:
             if isinstance(a, ast.List) or (isinstance(a, ast.Constant) and a.value is None):
                 continue
-            if isinstance(a, ast.Attribute) and u(a) in ("gate.arg_value", "gate.arg_label"):
+            if isinstance(a, ast.Attribute) and u(a) in (gv + ".arg_value", gv + ".arg_label"):
                 continue
             lit = False
     for c in calls_in(fn, "append") + calls_in(fn, "add_gate"):
         for a in c.args:
-            if isinstance(a, ast.Name) and a.id == "gate":
+            if isinstance(a, ast.Name) and a.id == gv:
                 lit = False
     F["f_adjacent_literals"] = lit
     _w("f_adjacent_literals", rel, fn_adj, "(all Gate(...) constructions and appends of adjacent_gates)")
     # reverse_circuit
     fn = _find(t, rel, "QubitCircuit", "reverse_circuit")
     st = _stmts(fn)
-    if not st or not isinstance(st[-1], ast.Return) or u(st[-1].value) != "temp":
-        raise Broken("translator:" + rel + ":reverse_circuit", "does not end with `return temp`")
-    gates_copied = any(assign_to(s, "temp.gates") and "deepcopy" in u(s.value) for s in st[-3:-1]) or \
+    rn = returned_name(fn, rel + ":reverse_circuit")
+    bound = [s_ for s_ in st if assign_to(s_, rn)]
+    if len(bound) != 1 or not (isinstance(bound[0].value, ast.Call) and u(bound[0].value.func) == "QubitCircuit"):
+        raise Broken("translator:" + rel + ":reverse_circuit", "the returned object is not bound once to a QubitCircuit(...) construction")
+    gates_copied = any(assign_to(s, rn + ".gates") and is_deep(s.value) and copy_src(s.value) == rn + ".gates" for s in st[-3:-1]) or \
         all(("deepcopy" in u(c)) for c in calls_in(fn, "add_gate") + calls_in(fn, "add_measurement")) and bool(calls_in(fn, "add_gate"))
-    ctor = [c for c in calls_in(fn, "QubitCircuit")]
-    if len(ctor) != 1:
-        raise Broken("translator:" + rel + ":reverse_circuit", "expected one QubitCircuit(...) construction")
+    ctor = [bound[0].value]
     io_shared = False
     for k in ctor[0].keywords:
         if k.arg in ("input_states", "output_states"):
             if u(k.value) in ("self.input_states", "self.output_states"):
                 io_shared = True
-            elif is_copy_of(k.value, "self." + k.arg):
+            elif copy_src(k.value) == "self." + k.arg:
                 pass
             else:
                 raise Broken("translator:" + rel + ":reverse_circuit", "unrecognised %s=%s" % (k.arg, u(k.value)))
     F["f_reverse_copy"] = bool(gates_copied and not io_shared)
-    _w("f_reverse_copy", rel, _last_assign(fn, "temp.gates"), "(and input_states=/output_states= of the constructor, line %d)" % ctor[0].lineno)
-    # add_circuit
+    _w("f_reverse_copy", rel, _last_assign(fn, rn + ".gates"), "(and input_states=/output_states= of the constructor, line %d)" % ctor[0].lineno)
+    # add_circuit(self, qc, ...): loop over the gates of the circuit that is passed in
     fn = _find(t, rel, "QubitCircuit", "add_circuit")
+    src = params(fn)[0]
+    ov = loop_var_over(fn, (src + ".gates",), rel + ":add_circuit")
+    # local names that are only ever bound to new lists (or None)
+    binds = {}
+    for s_ in ast.walk(fn):
+        if isinstance(s_, ast.Assign) and len(s_.targets) == 1 and isinstance(s_.targets[0], ast.Name):
+            ok_ = isinstance(s_.value, (ast.ListComp, ast.List)) or (isinstance(s_.value, ast.Constant) and s_.value.value is None)
+            binds[s_.targets[0].id] = binds.get(s_.targets[0].id, True) and ok_
     fresh_lists = True
     arg_copy = None
     found = False
@@ -160,22 +212,18 @@ def translate():
             if k.arg in ("targets", "controls"):
                 found = True
                 v = k.value
-                if isinstance(v, ast.Name) and v.id in ("tar", "ctrl"):
+                if isinstance(v, ast.Name) and binds.get(v.id, False):
                     continue
                 if isinstance(v, (ast.ListComp, ast.List)):
                     continue
                 fresh_lists = False
             if k.arg == "arg_value":
-                if u(k.value) == "circuit_op.arg_value":
+                if u(k.value) == ov + ".arg_value":
                     arg_copy = False
-                elif is_copy_of(k.value, "circuit_op.arg_value"):
+                elif copy_src(k.value) == ov + ".arg_value":
                     arg_copy = True
                 else:
                     raise Broken("translator:" + rel + ":add_circuit", "unrecognised arg_value=%s" % u(k.value))
-    for s in ast.walk(fn):
-        if isinstance(s, ast.Assign) and len(s.targets) == 1 and u(s.targets[0]) in ("tar", "ctrl"):
-            if not (isinstance(s.value, (ast.ListComp, ast.List)) or (isinstance(s.value, ast.Constant) and s.value.value is None)):
-                fresh_lists = False
     if not found or arg_copy is None:
         raise Broken("translator:" + rel + ":add_circuit", "add_gate(... targets=, arg_value=) not found")
     F["f_addc_fresh_lists"] = fresh_lists
@@ -183,7 +231,7 @@ def translate():
     for c in calls_in(fn, "add_gate"):
         for k in c.keywords:
             if k.arg == "targets":
-                _w("f_addc_fresh_lists", rel, k.value, "(tar / ctrl list comprehensions above)")
+                _w("f_addc_fresh_lists", rel, k.value, "(index lists built by comprehensions above)")
             if k.arg == "arg_value":
                 _w("f_addc_arg_copy", rel, k.value)
 
@@ -192,38 +240,43 @@ def translate():
     t = _parse(rel)
     fn = _find(t, rel, None, "to_chain_structure")
     st = _stmts(fn)
-    first = [s for s in st if assign_to(s, "qc_t")]
+    src = params(fn)[0]
+    rn = returned_name(fn, rel + ":to_chain_structure")
+    first = [s for s in st if assign_to(s, rn)]
     if not first:
-        raise Broken("translator:" + rel + ":to_chain_structure", "no assignment to qc_t")
+        raise Broken("translator:" + rel + ":to_chain_structure", "no assignment to the returned circuit")
     v = first[0].value
-    if u(v) in ("deepcopy(qc)", "copy.deepcopy(qc)"):
+    is_dc = is_deep(v) and copy_src(v) == src
+    if is_dc:
         incopy = True
     elif isinstance(v, ast.Call) and u(v.func) == "QubitCircuit":
         incopy = True      # a new circuit object
-    elif u(v) in ("qc", "copy(qc)", "copy.copy(qc)"):
+    elif u(v) == src or (copy_src(v) == src and not is_deep(v)):
         incopy = False
     else:
-        raise Broken("translator:" + rel + ":to_chain_structure", "unrecognised qc_t = " + u(v))
+        raise Broken("translator:" + rel + ":to_chain_structure", "unrecognised binding of the returned circuit: " + u(v))
     i0 = st.index(first[0])
     nxt = st[i0 + 1] if i0 + 1 < len(st) else None
-    if not (nxt is not None and assign_to(nxt, "qc_t.gates") and u(nxt.value) == "[]"):
-        if u(v) in ("deepcopy(qc)", "copy.deepcopy(qc)"):
-            raise Broken("translator:" + rel + ":to_chain_structure", "qc_t.gates = [] does not follow the copy")
+    if not (nxt is not None and assign_to(nxt, rn + ".gates") and u(nxt.value) == "[]"):
+        if is_dc:
+            raise Broken("translator:" + rel + ":to_chain_structure", "<copy>.gates = [] does not follow the copy")
     F["f_chain_input_copy"] = incopy
     _w("f_chain_input_copy", rel, first[0])
-    F["f_chain_final"] = flag_last_deepcopy(fn, rel + ":to_chain_structure", "qc_t")
-    _w("f_chain_final", rel, _last_assign(fn, "qc_t.gates"))
+    F["f_chain_final"] = flag_last_deepcopy(fn, rel + ":to_chain_structure")
+    _w("f_chain_final", rel, _last_assign(fn, rn + ".gates"))
 
     # ---------------- compiler/scheduler.py, instruction.py ----------------
     rel = "compiler/scheduler.py"
     t = _parse(rel)
     fn = _find(t, rel, "Scheduler", "schedule")
     st = _stmts(fn)
-    F["f_sched_copy"] = bool(st and assign_to(st[0], "circuit") and is_copy_of(st[0].value, "circuit") and "deepcopy" in u(st[0].value))
+    pn = params(fn)[0]
+    F["f_sched_copy"] = bool(st and assign_to(st[0], pn) and is_deep(st[0].value) and copy_src(st[0].value) == pn)
     _w("f_sched_copy", rel, st[0] if st else fn)
     fn = _find(t, rel, "InstructionsGraph", "__init__")
     st = _stmts(fn)
-    F["f_graph_copy"] = bool(st and assign_to(st[0], "instructions") and is_copy_of(st[0].value, "instructions") and "deepcopy" in u(st[0].value))
+    pn = params(fn)[0]
+    F["f_graph_copy"] = bool(st and assign_to(st[0], pn) and is_deep(st[0].value) and copy_src(st[0].value) == pn)
     _w("f_graph_copy", rel, st[0] if st else fn)
     rel = "compiler/instruction.py"
     t = _parse(rel)
@@ -232,9 +285,10 @@ def translate():
     g = [s for s in st if assign_to(s, "self.gate")]
     if len(g) != 1:
         raise Broken("translator:" + rel + ":Instruction.__init__", "expected one assignment to self.gate")
-    if u(g[0].value) in ("deepcopy(gate)", "copy.deepcopy(gate)"):
+    pn = params(fn)[0]
+    if is_deep(g[0].value) and copy_src(g[0].value) == pn:
         ic = True
-    elif u(g[0].value) in ("gate", "copy(gate)", "copy.copy(gate)"):
+    elif u(g[0].value) == pn or copy_src(g[0].value) == pn:
         ic = False
     else:
         raise Broken("translator:" + rel + ":Instruction.__init__", "unrecognised self.gate = " + u(g[0].value))
@@ -252,11 +306,12 @@ def translate():
     fn = _find(t, rel, "CircuitSimulator", "initialize")
     cb = [s for s in ast.walk(fn) if assign_to(s, "self.cbits")]
     kinds = []
+    pset = set(params(fn))
     for s in cb:
         v = s.value
-        if u(v) == "cbits":
+        if isinstance(v, ast.Name) and v.id in pset:
             kinds.append("ref")
-        elif is_copy_of(v, "cbits"):
+        elif copy_src(v) in pset:
             kinds.append("copy")
         elif isinstance(v, ast.Constant) and v.value is None:
             kinds.append("none")
@@ -287,15 +342,19 @@ def translate():
     rel = "device/processor.py"
     t = _parse(rel)
     fn = _find(t, rel, "Processor", "get_noisy_pulses")
-    a = [s for s in _stmts(fn) if assign_to(s, "pulses")]
     calls = calls_in(fn, "process_noise")
     if len(calls) != 1:
         raise Broken("translator:" + rel + ":get_noisy_pulses", "expected one process_noise call")
-    first_arg = u(calls[0].args[0]) if calls[0].args else ""
-    if a and first_arg == "pulses" and u(a[0].value) in ("deepcopy(self.pulses)", "copy.deepcopy(self.pulses)"):
-        F["f_gnp_copy"] = True
-    elif (a and first_arg == "pulses" and u(a[0].value) in ("self.pulses", "list(self.pulses)", "self.pulses.copy()")) or first_arg == "self.pulses":
+    arg0 = calls[0].args[0] if calls[0].args else None
+    a = [s for s in _stmts(fn) if isinstance(arg0, ast.Name) and assign_to(s, arg0.id)]
+    if arg0 is not None and u(arg0) == "self.pulses":
         F["f_gnp_copy"] = False
+    elif a and is_deep(a[-1].value) and copy_src(a[-1].value) == "self.pulses":
+        F["f_gnp_copy"] = True
+    elif a and (u(a[-1].value) == "self.pulses" or copy_src(a[-1].value) == "self.pulses"):
+        F["f_gnp_copy"] = False
+    elif arg0 is not None and is_deep(arg0) and copy_src(arg0) == "self.pulses":
+        F["f_gnp_copy"] = True
     else:
         raise Broken("translator:" + rel + ":get_noisy_pulses", "unrecognised pulses argument of process_noise")
     _w("f_gnp_copy", rel, a[0] if a else calls[0])
@@ -307,20 +366,32 @@ def translate():
     t = _parse(rel)
     fn = _find(t, rel, None, "process_noise")
     st = _stmts(fn)
-    a = [s for s in st if assign_to(s, "noisy_pulses")]
+    p_pulses, p_noise = params(fn)[0], params(fn)[1]
+    # the list the noise is applied to: a name bound to (a copy of) the first parameter
+    a = [s for s in st if isinstance(s, ast.Assign) and len(s.targets) == 1 and isinstance(s.targets[0], ast.Name)
+         and (u(s.value) == p_pulses or copy_src(s.value) == p_pulses)]
     if not a:
-        raise Broken("translator:" + rel + ":process_noise", "no assignment to noisy_pulses")
-    if u(a[0].value) in ("deepcopy(pulses)", "copy.deepcopy(pulses)"):
-        F["f_pn_copy"] = True
-    elif u(a[0].value) in ("pulses", "list(pulses)", "pulses.copy()", "copy(pulses)"):
-        F["f_pn_copy"] = False
+        F["f_pn_copy"] = False          # works on the caller's list itself
+        _w("f_pn_copy", rel, fn, "(no copy of the pulses parameter)")
     else:
-        raise Broken("translator:" + rel + ":process_noise", "unrecognised noisy_pulses = " + u(a[0].value))
-    _w("f_pn_copy", rel, a[0])
-    a = [s for s in st if assign_to(s, "noise_list")]
-    appends = [c for c in calls_in(fn, "append") if u(c.func) == "noise_list.append"]
-    F["f_pn_list_copy"] = bool((a and is_copy_of(a[0].value, "noise_list")) or not appends)
-    _w("f_pn_list_copy", rel, a[0] if a else fn)
+        F["f_pn_copy"] = bool(is_deep(a[0].value))
+        _w("f_pn_copy", rel, a[0])
+    # appends to the noise list: onto a copy of the second parameter, or onto the parameter itself / an alias
+    copies, aliases = set(), {p_noise}
+    a2 = None
+    for s_ in st:
+        if isinstance(s_, ast.Assign) and len(s_.targets) == 1 and isinstance(s_.targets[0], ast.Name):
+            tn = s_.targets[0].id
+            if copy_src(s_.value) in aliases:
+                copies.add(tn)
+                aliases.discard(tn)
+                a2 = a2 or s_
+            elif isinstance(s_.value, ast.Name) and s_.value.id in aliases:
+                aliases.add(tn)
+    appends = [c for c in ast.walk(fn) if isinstance(c, ast.Call) and isinstance(c.func, ast.Attribute)
+               and c.func.attr in ("append", "extend", "insert") and isinstance(c.func.value, ast.Name) and c.func.value.id in aliases]
+    F["f_pn_list_copy"] = not appends
+    _w("f_pn_list_copy", rel, a2 if a2 is not None else fn)
 
     # ---------------- load_circuit overrides ----------------
     sets_gp = True
@@ -331,14 +402,21 @@ def translate():
         g = [s for s in ast.walk(fn) if isinstance(s, (ast.Assign, ast.AugAssign)) and u(s.targets[0] if isinstance(s, ast.Assign) else s.target) == "self.global_phase"]
         if len(g) != 1:
             raise Broken("translator:" + rel + ":load_circuit", "expected one assignment to self.global_phase")
-        if not (isinstance(g[0], ast.Assign) and u(g[0].value) == "compiler.global_phase"):
+        cv = None
+        if isinstance(g[0], ast.Assign) and isinstance(g[0].value, ast.Attribute) and g[0].value.attr == "global_phase" \
+                and isinstance(g[0].value.value, ast.Name):
+            cv = g[0].value.value.id
+        else:
             sets_gp = False
+        if cv is None:
+            cand = [x for x in params(fn) if "compiler" in x]
+            cv = cand[0] if cand else "compiler"
         WHERE["f_load_sets_gp"] = (WHERE.get("f_load_sets_gp", "") + " %s:%d" % (rel, g[0].lineno)).strip()
-        ifs = [s for s in _stmts(fn) if isinstance(s, ast.If) and u(s.test) == "compilerisNone"]
+        ifs = [s for s in _stmts(fn) if isinstance(s, ast.If) and u(s.test) == cv + "isNone"]
         ok = False
         for s in ifs:
             for b in s.body:
-                if assign_to(b, "compiler") and isinstance(b.value, ast.Call) and u(b.value.func).endswith("Compiler"):
+                if assign_to(b, cv) and isinstance(b.value, ast.Call) and u(b.value.func).endswith("Compiler"):
                     ok = True
                     WHERE["f_default_comp_fresh"] = (WHERE.get("f_default_comp_fresh", "") + " %s:%d" % (rel, b.lineno)).strip()
         if not ok:
@@ -348,7 +426,8 @@ def translate():
     fn = _find(t, rel, "ModelProcessor", "load_circuit")
     ok = False
     for s in ast.walk(fn):
-        if assign_to(s, "compiler") and isinstance(s.value, ast.Call) and u(s.value.func) == "self._default_compiler":
+        if isinstance(s, ast.Assign) and len(s.targets) == 1 and isinstance(s.targets[0], ast.Name) \
+                and isinstance(s.value, ast.Call) and u(s.value.func) == "self._default_compiler":
             ok = True
             WHERE["f_default_comp_fresh"] = (WHERE.get("f_default_comp_fresh", "") + " %s:%d" % (rel, s.lineno)).strip()
     if not ok:
